@@ -271,7 +271,7 @@ func (s *Service) onStopStream(w http.ResponseWriter, r *http.Request, pathParam
 
 	rt = media.Get(path)
 	if rt != nil {
-		rt.Close()
+		media.Unregist(rt) // 先取消注册再关闭，避免 Get 返回已关闭的流
 	}
 
 	w.WriteHeader(http.StatusOK)
